@@ -44,3 +44,8 @@ CASES += [
     dict(id='c16-eq-add-emplace', prop='C16', file=LAC, expect=None,
          old="   mAttributes.push_back( attr_pair_t( attr_name, attr_value));\n", new="   mAttributes.emplace_back( attr_name, attr_value);\n"),
 ]
+
+CASES += [
+    dict(id='c16-parent-asked-first', prop='C16', file='src/library/log/log_attributes.cpp', expect='R3',
+         old="   if (my_attr.empty() && (mpOuter != nullptr))\n      return mpOuter->getAttribute( attr_name);", new="   if (mpOuter != nullptr)\n      return mpOuter->getAttribute( attr_name);"),
+]
